@@ -115,6 +115,13 @@ def pmap(func, items, procs=None, chunksize=None):
         return pool.map(func, items, chunksize)
 
 
+def in_child(func, item):
+    """func(item) in a forked child process (for work that starts threads / servers the main process must not own when it forks later)"""
+    ctx = multiprocessing.get_context("fork")
+    with ctx.Pool(1, initializer=_init_worker) as pool:
+        return pool.apply(func, (item,))
+
+
 def workdir():
     """A scratch directory holding symlinks to all spec modules, for generated MC_/trace modules."""
     d = tempfile.mkdtemp(prefix="verif_spec_")
